@@ -36,7 +36,9 @@ def mutate_params_inplace(built, desc, rng):
     from vf.refmodel import topology
 
     ins, outs, org, dst = topology(desc)
-    kind = rng.choice(("scale_turnrates", "change_turnrates", "lanes", "length", "fd", "capacity"))
+    kind = rng.choice(("scale_turnrates", "change_turnrates", "lanes", "length", "fd", "capacity", "flow_equation", "flow_equation"))
+    if kind == "flow_equation" and not any(o["kind"] in ("ramp", "simple") for o in desc["origins"]):
+        kind = "fd"
     if kind == "scale_turnrates":
         for n in desc["nodes"]:
             if outs[n]:
@@ -64,6 +66,13 @@ def mutate_params_inplace(built, desc, rng):
             l["a"] = round(rng.uniform(1.2, 3.2), 3)
             el = built.links[l["id"]]
             el.rho_crit, el.v_free, el.a = l["rho_crit"], l["v_free"], l["a"]
+    elif kind == "flow_equation":
+        # the flow-equation variant is a plain public attribute of a ramp: switched on the live object
+        other = {"in": "out", "out": "in", "limited": "unlimited", "unlimited": "limited"}
+        for o in desc["origins"]:
+            if o["kind"] in ("ramp", "simple"):
+                o["eq"] = other[o["eq"]]
+                built.origins[o["id"]].flow_eq_type = D.fresh(o["eq"])
     else:
         for o in desc["origins"]:
             if o["kind"] in ("ramp", "simple"):
@@ -119,6 +128,100 @@ def replace_elements_inplace(M, built, desc, rng):
         return desc, None
     built.desc = d
     return d, kind
+
+
+def grow_network_inplace(M, built, desc, rng):
+    """Extends a live (already stepped) network through the public API: a new branch with its own
+    destination at a node that had one leaving link (a bifurcation appears), a new entering link with
+    its own origin (a merge appears), or an on-ramp at an interior node.  Single, bulk and path forms.
+    Returns (desc', label) or (desc, None)."""
+    import copy
+
+    from vf.refmodel import topology
+
+    d = copy.deepcopy(desc)
+    ins, outs, org, dst = topology(d)
+    g = G.NetGen(rng)
+    proto = copy.deepcopy(rng.choice(d["links"]))
+    k = len(d["links"])
+    while any(l["id"] == f"L{k}" for l in d["links"]):
+        k += 1
+
+    def new_link(up, down):
+        l = dict(proto, id=f"L{k}", name=f"L{k}g", up=up, down=down, N=rng.choice((1, 2, 3)), lam=rng.choice((1, 2, 3)),
+                 L=round(rng.uniform(0.4, 1.6), 3), beta=round(rng.uniform(0.1, 2.5), 3), vsl=None, alpha=None)
+        return l
+
+    kinds = []
+    cand_b = [n for n in d["nodes"] if len(outs[n]) == 1 and n not in org and n not in dst]
+    cand_m = [n for n in d["nodes"] if n not in org and n not in dst and len(outs[n]) >= 1]
+    cand_r = [n for n in d["nodes"] if n not in org and len(ins[n]) >= 1 and len(outs[n]) == 1]
+    if cand_b:
+        kinds.append("branch")
+    if cand_m:
+        kinds.append("merge")
+    if cand_r:
+        kinds.append("ramp")
+    if not kinds:
+        return desc, None
+    kind = rng.choice(kinds)
+    form = rng.choice(("add_link", "add_links", "add_path"))
+    if kind in ("branch", "merge"):
+        nn = f"G{len(d['nodes'])}"
+        d["nodes"].append(nn)
+        node = M.Node(name=nn)
+        built.nodes[nn] = node
+        if kind == "branch":
+            n = rng.choice(cand_b)
+            l = new_link(n, nn)
+            x = {"id": f"D{len(d['dests'])}g", "name": f"Dg{len(d['dests'])}", "node": nn, "kind": rng.choice(("free", "cong"))}
+            d["dests"].append(x)
+        else:
+            n = rng.choice(cand_m)
+            l = new_link(nn, n)
+            okind = rng.choice(("ideal", "main", "ramp", "simple"))
+            x = {"id": f"O{len(d['origins'])}g", "name": f"Og{len(d['origins'])}", "node": nn, "kind": okind,
+                 "C": round(rng.uniform(1200.0, 4500.0), 1) if okind in ("ramp", "simple") else None,
+                 "eq": {"ramp": rng.choice(("in", "out")), "simple": rng.choice(("limited", "unlimited"))}.get(okind)}
+            d["origins"].append(x)
+        d["links"].append(l)
+        _n, links, _o, _d = D.make_objects(M, {"nodes": [], "links": [l], "origins": [], "dests": []})
+        lk = links[l["id"]]
+        built.links[l["id"]] = lk
+        up, dn = built.nodes[l["up"]], built.nodes[l["down"]]
+        if form == "add_link":
+            built.net.add_link(up, lk, dn)
+        elif form == "add_links":
+            built.net.add_links([(up, lk, dn)])
+        if kind == "branch":
+            _n, _l, _o, dests = D.make_objects(M, {"nodes": [], "links": [], "origins": [], "dests": [x]})
+            built.dests[x["id"]] = dests[x["id"]]
+            if form == "add_path":
+                built.net.add_path((up, lk, dn), destination=dests[x["id"]])
+            else:
+                built.net.add_destination(dests[x["id"]], dn)
+        else:
+            _n, _l, origins, _d = D.make_objects(M, {"nodes": [], "links": [], "origins": [x], "dests": []})
+            built.origins[x["id"]] = origins[x["id"]]
+            if form == "add_path":
+                built.net.add_path((up, lk, dn), origin=origins[x["id"]])
+            else:
+                built.net.add_origin(origins[x["id"]], up)
+    else:
+        n = rng.choice(cand_r)
+        okind = rng.choice(("ramp", "simple"))
+        x = {"id": f"O{len(d['origins'])}g", "name": f"Og{len(d['origins'])}", "node": n, "kind": okind,
+             "C": round(rng.uniform(1200.0, 4500.0), 1),
+             "eq": {"ramp": rng.choice(("in", "out")), "simple": rng.choice(("limited", "unlimited"))}[okind]}
+        d["origins"].append(x)
+        _n, _l, origins, _d = D.make_objects(M, {"nodes": [], "links": [], "origins": [x], "dests": []})
+        built.origins[x["id"]] = origins[x["id"]]
+        built.net.add_origin(origins[x["id"]], built.nodes[n])
+        form = "add_origin"
+    if not G.is_valid_desc(d):
+        raise RuntimeError("grown description is not valid")
+    built.desc = d
+    return d, f"{kind} via {form}"
 
 
 def numpy_steps(M, rec, rng, n_nets, draws=3, opts_prob=0.0, on_case=None, regimes=None,
@@ -200,6 +303,31 @@ def numpy_steps(M, rec, rng, n_nets, draws=3, opts_prob=0.0, on_case=None, regim
                 rec.seen("element_replacements", what)
                 case = {"desc": desc3, "vals": vals, "pars": pars, "opts": {}, "engine": "numpy", "regime": regime,
                         "shape": shp, "after_replacement_of": what}
+                if before_case:
+                    before_case(case, built)
+                try:
+                    drive.do_step(built.net, drive.pick_via(rng, via_prob), rng=rng,
+                                  init_conditions=drive.np_init(built, vals, "vec1"), engine=(keep_engine or NE()), **drive.step_pars(pars))
+                except Exception:
+                    pass
+                if on_case:
+                    on_case(case, built)
+        # the already stepped network is extended through the API (a bifurcation, a merge or an on-ramp
+        # appears) and stepped again
+        if rng.random() < 0.3:
+            try:
+                desc5, what = grow_network_inplace(M, built, built.desc, rng)
+            except Exception as e:
+                desc5, what = built.desc, None
+                rec.count("network_growth_failed_in_harness")
+                rec.seen("network_growth_failed_in_harness", repr(e)[:120])
+            if what:
+                regime, vals = g.values(desc5)
+                pars = g.pars()
+                rec.count("numpy_cases_after_network_growth")
+                rec.seen("network_growths", what)
+                case = {"desc": desc5, "vals": vals, "pars": pars, "opts": {}, "engine": "numpy", "regime": regime,
+                        "shape": shp, "after_growth": what}
                 if before_case:
                     before_case(case, built)
                 try:
